@@ -17,6 +17,13 @@
          order, every thread's result is that of its sequential run
      §3  store_metadata / delete_metadata (one format) have the shape; the theorems for pools of
          API calls: [one_doc_writers_linearizable], [one_doc_writers_linearizable_inv]
+     §4  what the document is afterwards: [one_doc_last_writer_wins] — the effects [doc_after] of
+         the calls on the document, applied in acquisition order
+
+   Scope.  Pools of writers of ONE document only (plus calls rejected by the argument checks).  A
+   pool that also contains calls on OTHER documents / pids with footprints disjoint from the
+   document (IndepMeta.gindep) is not covered here: that needs the group form of Indep.indep_pool
+   (one shared footprint for the writers, the block invariant below on its projection).
 
    The sequential run is Indep.seq_run: each call runs alone, one after the other, as its own thread
    number (temp names carry it).  [acq_order sched]: the thread numbers in the order of their first
@@ -600,4 +607,183 @@ Proof.
     cbv zeta in H3. destruct H3 as (N1 & N2 & N3 & N4 & N5).
     exists (acq_order sched ++ inert (length calls) sched), w', rs.
     repeat split; auto; try (apply N2). intros a. rewrite N4. reflexivity.
+Qed.
+
+(* ====================================================================================== *)
+(* §4  what the document is afterwards: the last writer to acquire the lock wins           *)
+(* ====================================================================================== *)
+
+Lemma run_as_bind : forall A B t (m : prog A) (f : A -> prog B) w,
+  run_as t w (bind m f) =
+  match run_as t w m with Some (w', a) => run_as t w' (f a) | None => None end.
+Proof.
+  induction m as [a|o k IH|]; intros f w; simpl; auto.
+  destruct (exec_op t o w) as [[x w']|]; auto.
+Qed.
+
+Lemma run_as_mbind : forall A B t (m : M A) (f : A -> M B) w,
+  run_as t w (mbind m f) =
+  match run_as t w m with
+  | Some (w', Val a) => run_as t w' (f a)
+  | Some (w', Exn e) => Some (w', Exn e)
+  | None => None
+  end.
+Proof.
+  intros. unfold mbind. rewrite run_as_bind.
+  destruct (run_as t w m) as [[w' [a|e]]|]; reflexivity.
+Qed.
+
+Lemma run_as_try_finally : forall A t (m : M A) fin w,
+  run_as t w (try_finally m fin) =
+  match run_as t w m with
+  | Some (w', r) =>
+      match run_as t w' fin with
+      | Some (w'', Val _) => Some (w'', r)
+      | Some (w'', Exn e) => Some (w'', Exn e)
+      | None => None
+      end
+  | None => None
+  end.
+Proof.
+  intros. unfold try_finally. rewrite run_as_bind.
+  destruct (run_as t w m) as [[w' r]|]; auto. rewrite run_as_bind.
+  destruct (run_as t w' fin) as [[w'' [u|e]]|]; reflexivity.
+Qed.
+
+Lemma run_as_catch : forall A t (m : M A) w,
+  run_as t w (catch m) =
+  match run_as t w m with Some (w', r) => Some (w', Val r) | None => None end.
+Proof.
+  intros. unfold catch. rewrite run_as_bind. destruct (run_as t w m) as [[w' r]|]; reflexivity.
+Qed.
+
+Lemma run_as_write_chunks : forall t t0 k w b n0 i,
+  lookup t0 (fs w) = Some (CData b n0 i) ->
+  exists w', run_as t w (write_chunks t0 k) = Some (w', Val tt) /\
+             lookup t0 (fs w') = Some (CData b n0 (i + k)) /\ locks w' = locks w /\
+             forall x, x <> t0 -> lookup x (fs w') = lookup x (fs w).
+Proof.
+  induction k as [|k IH]; intros w b n0 i Hl.
+  - exists w. simpl. rewrite Nat.add_0_r. auto.
+  - cbn [write_chunks]. rewrite run_as_mbind. simpl. rewrite Hl. simpl.
+    destruct (IH (set_fs w (update t0 (CData b n0 (S i)) (fs w))) b n0 (S i)) as (w' & H1 & H2 & H3 & H4).
+    { simpl. apply lookup_update_eq. }
+    exists w'. split; [exact H1|]. split; [rewrite H2; f_equal; f_equal; lia|]. split; [exact H3|].
+    intros x Hx. rewrite (H4 x Hx). simpl. apply lookup_update_neq. exact Hx.
+Qed.
+
+(* the document after one call, as a function of the document before *)
+Definition doc_after (c : call) (d : option fcontent) : option fcontent :=
+  match c with
+  | CStoreMeta _ _ SrcMissing _ _ => d
+  | CStoreMeta _ _ _ v n => Some (CData v n n)
+  | CDelMeta _ (Some _) => None
+  | _ => d
+  end.
+
+Lemma one_doc_call_run : forall p f ci t w,
+  one_doc_call p f ci -> locks w = [] ->
+  exists w' r, run_as t w (api ci) = Some (w', r) /\ locks w' = [] /\
+               lookup (AMeta p f) (fs w') = doc_after ci (lookup (AMeta p f) (fs w)).
+Proof.
+  intros p f ci t w Hc Hl. destruct ci; simpl in Hc; try contradiction.
+  - destruct Hc as [-> ->]. unfold api, store_metadata. cbv zeta.
+    rewrite run_as_mbind. cbn [acquire run_as]. cbn [exec_op]. rewrite Hl. cbn [memb ret set_locks run_as].
+    rewrite run_as_try_finally.
+    set (a := AMeta p f).
+    assert (Hrel : forall w2 : world, locks w2 = [(LMeta, IDoc a)] ->
+              run_as t w2 (release LMeta (IDoc a)) = Some (set_locks w2 [], Val tt)).
+    { intros w2 H2. cbn [release run_as exec_op]. rewrite H2. cbn [memb remove1].
+      rewrite lock_eqb_refl. reflexivity. }
+    rewrite run_as_mbind.
+    destruct s; cbn [open_source].
+    + (* a path *)
+      cbn [unit_op run_as exec_op ret]. rewrite run_as_mbind.
+      cbn [mktmp run_as exec_op ret].
+      set (t0 := fresh_tmp ArMeta t _).
+      set (w2 := set_fs _ (update t0 _ _)).
+      rewrite run_as_mbind.
+      destruct (run_as_write_chunks t t0 n w2 v n 0) as (w3 & H1 & H2 & H3 & H4).
+      { unfold w2. simpl. apply lookup_update_eq. }
+      rewrite H1. rewrite run_as_mbind, run_as_catch, run_as_mbind.
+      cbn [unit_op run_as exec_op ret]. rewrite H2. cbn [ret run_as].
+      rewrite Hrel by (simpl; rewrite H3; unfold w2; reflexivity).
+      eexists. eexists. split; [reflexivity|]. split; [reflexivity|].
+      simpl. rewrite lookup_update_eq. reflexivity.
+    + (* missing source: ValueError, nothing written *)
+      cbn [raise run_as]. rewrite Hrel by reflexivity.
+      eexists. eexists. split; [reflexivity|]. split; [reflexivity|]. reflexivity.
+    + (* a stream *)
+      cbn [ret run_as]. rewrite run_as_mbind.
+      cbn [mktmp run_as exec_op ret].
+      set (t0 := fresh_tmp ArMeta t _).
+      set (w2 := set_fs _ (update t0 _ _)).
+      rewrite run_as_mbind.
+      destruct (run_as_write_chunks t t0 n w2 v n 0) as (w3 & H1 & H2 & H3 & H4).
+      { unfold w2. simpl. apply lookup_update_eq. }
+      rewrite H1. rewrite run_as_mbind, run_as_catch, run_as_mbind.
+      cbn [unit_op run_as exec_op ret]. rewrite H2. cbn [ret run_as].
+      rewrite Hrel by (simpl; rewrite H3; unfold w2; reflexivity).
+      eexists. eexists. split; [reflexivity|]. split; [reflexivity|].
+      simpl. rewrite lookup_update_eq. reflexivity.
+  - destruct f0 as [f0|]; [|contradiction]. destruct Hc as [-> ->].
+    unfold api, lift_unit, delete_metadata. cbv zeta.
+    rewrite !run_as_mbind. cbn [acquire run_as]. cbn [exec_op]. rewrite Hl. cbn [memb ret set_locks run_as].
+    rewrite run_as_try_finally, run_as_mbind.
+    set (a := AMeta p f).
+    assert (Hrel : forall w2 : world, locks w2 = [(LMeta, IDoc a)] ->
+              run_as t w2 (release LMeta (IDoc a)) = Some (set_locks w2 [], Val tt)).
+    { intros w2 H2. cbn [release run_as exec_op]. rewrite H2. cbn [memb remove1].
+      rewrite lock_eqb_refl. reflexivity. }
+    cbn [probe run_as exec_op ret].
+    change (fs (set_locks w [(LMeta, IDoc a)])) with (fs w).
+    destruct (lookup a (fs w)) as [d|] eqn:Ed.
+    + cbn [unit_op run_as exec_op ret].
+      change (fs (set_locks w [(LMeta, IDoc a)])) with (fs w). rewrite Ed. cbn [ret run_as].
+      rewrite Hrel by reflexivity.
+      eexists. eexists. split; [reflexivity|]. split; [reflexivity|].
+      simpl. apply lookup_delete_eq.
+    + cbn [ret run_as]. rewrite Hrel by reflexivity.
+      eexists. eexists. split; [reflexivity|]. split; [reflexivity|]. simpl. exact Ed.
+  - unfold api. simpl. eexists. eexists. split; [reflexivity|]. auto.
+Qed.
+
+Lemma callat_one_doc : forall p f calls,
+  (forall ci, In ci calls -> one_doc_call p f ci) -> forall i, one_doc_call p f (callat calls i).
+Proof.
+  intros p f calls H i. unfold callat. destruct (nth_in_or_default i calls (CRejected EGeneric)) as [Hin|E].
+  - apply H. exact Hin.
+  - rewrite E. exact I.
+Qed.
+
+Lemma seq_run_doc : forall p f calls ord w w' rs,
+  (forall i, one_doc_call p f (callat calls i)) -> locks w = [] ->
+  seq_run calls ord w = Some (w', rs) ->
+  lookup (AMeta p f) (fs w') =
+  fold_left (fun d i => doc_after (callat calls i) d) ord (lookup (AMeta p f) (fs w)).
+Proof.
+  induction ord as [|i ord IH]; intros w w' rs Hc Hl H; simpl in H.
+  - inversion H; subst. reflexivity.
+  - destruct (one_doc_call_run p f (callat calls i) i w (Hc i) Hl) as (w1 & r & H1 & H2 & H3).
+    rewrite H1 in H. destruct (seq_run calls ord w1) as [[w2 rs2]|] eqn:E; [|discriminate].
+    inversion H; subst. simpl. rewrite <- H3. eapply IH; eauto.
+Qed.
+
+(* the document afterwards: apply the calls' effects on the document in acquisition order — the
+   LAST store / delete to acquire the lock decides ([doc_after] of a store with a readable source,
+   and of a delete, ignores the document before) *)
+Theorem one_doc_last_writer_wins :
+  forall (p : pid) (f : fmt) (calls : list call) (w0 : world) (sched : list nat) (c : cfg),
+    locks w0 = [] -> refs_typed (fs w0) ->
+    (forall ci, In ci calls -> one_doc_call p f ci) ->
+    exec (map api calls) sched (init_cfg (map api calls) w0) = Some c ->
+    stuck (map api calls) c ->
+    lookup (AMeta p f) (fs (snd c)) =
+    fold_left (fun d i => doc_after (callat calls i) d)
+              (acq_order sched ++ inert (length calls) sched) (lookup (AMeta p f) (fs w0)).
+Proof.
+  intros p f calls w0 sched c Hl Hrt Hc He Hst.
+  destruct (one_doc_writers_linearizable p f calls w0 sched c Hl Hrt Hc He Hst)
+    as (_ & _ & w' & rs & H). cbv zeta in H. destruct H as (_ & _ & H3 & H4 & _).
+  rewrite H4. eapply seq_run_doc; eauto. apply callat_one_doc. exact Hc.
 Qed.
